@@ -25,11 +25,12 @@ def contains_term(t, sub):
     return any(s == sub for s in P.walk(t))
 
 
-def run(ctx):
-    ctx.explanation = ("static necessary conditions in Showdown::new / winner_len by provenance and edge-cut dominance: "
-                       "the 7 evaluated cards, the board-collision guard on both hole cards, the single-pass minimum "
-                       "discipline (reset under <, insert under <=, ties kept), position genericity, flag counting. The full "
-                       "input/output relation over all boards and ties is NOT decided.")
+def run(ctx, prefix="C03", set_explanation=True):
+    if set_explanation:
+        ctx.explanation = ("static necessary conditions in Showdown::new / winner_len by provenance and edge-cut dominance: "
+                           "the 7 evaluated cards, the board-collision guard on both hole cards, the single-pass minimum "
+                           "discipline (reset under <, insert under <=, ties kept), position genericity, flag counting. The full "
+                           "input/output relation over all boards and ties is NOT decided.")
     F = ctx.facts("lib")
     fn = F.fn(SHOWDOWN + "::new")
     wl = F.fn(SHOWDOWN + "::winner_len")
@@ -38,12 +39,12 @@ def run(ctx):
     fl = L.for_loops(fn, pr)
     main = [lp for lp in fl if P.strip(lp.chain()[0]) == ("param", 1)]
     if len(main) != 1:
-        raise U("C03.shape", "no single loop over the players argument", fn)
+        raise U(prefix + ".shape", "no single loop over the players argument", fn)
     main = main[0]
     src, chain = main.chain()
     names = [c.rsplit("::", 1)[-1] for c in chain]
     if "enumerate" not in names or any(n in ("rev", "skip", "take", "filter", "step_by", "zip") for n in names):
-        raise U("C03.shape", f"player loop is not `players.into_iter().enumerate()`: {chain}", fn)
+        raise U(prefix + ".shape", f"player loop is not `players.into_iter().enumerate()`: {chain}", fn)
     item = main.item_term
     pos = ("field", item, 0)
     player = ("field", item, 1)
@@ -59,7 +60,7 @@ def run(ctx):
         return ("other", P.show_key(s))
 
     # ---- rule 1 ---------------------------------------------------------------------------
-    rule = "C03.seven-cards"
+    rule = prefix + ".seven-cards"
     ctx.rule(rule, "the hand given to the evaluator is {p[0], p[1], board[0..4]}, each exactly once")
     conv = []
     for bi, t in fn.calls():
@@ -86,7 +87,7 @@ def run(ctx):
     made = pr.call_term(ct, cb)
 
     # ---- rule 2 ---------------------------------------------------------------------------
-    rule = "C03.board-collision"
+    rule = prefix + ".board-collision"
     ctx.rule(rule, "None is returned exactly under contains(board, p[0]) || contains(board, p[1]), before evaluation")
     t_edges, f_edges, seen = [], {}, set()
     for b, lab, truth, term in I.bool_edges(fn, pr):
@@ -123,7 +124,7 @@ def run(ctx):
                           fn=fn.path, file=fn.file, line=fn.blocks[nones[0]]["line"])
 
     # ---- rule 3 ---------------------------------------------------------------------------
-    rule = "C03.min-discipline"
+    rule = prefix + ".min-discipline"
     ctx.rule(rule, "best = MAX; under p < best: best = p and winners.clear(); under p <= best (ties included): winners.insert(i)")
 
     def is_p(t):
@@ -201,7 +202,7 @@ def run(ctx):
         ctx.ok(rule, {"best_init": f"{ty}::MAX", "reset": "p < best", "insert": "p <= best", "ties": "kept"}, sample=True)
 
     # ---- rule 4 ---------------------------------------------------------------------------
-    rule = "C03.position-generic"
+    rule = prefix + ".position-generic"
     ctx.rule(rule, "the player position is used only as a member of the winner set (no positional privilege)")
     flag_loops = [lp for lp in fl if lp is not main]
     positions = [pos] + [("field", lp.item_term, 0) for lp in flag_loops if "enumerate" in [c.rsplit("::", 1)[-1] for c in lp.chain()[1]]]
@@ -248,7 +249,7 @@ def run(ctx):
         ctx.ok(rule, {"uses_of_position": n_uses, "all": "winners.insert / winners.contains"}, sample=True)
 
     # ---- rule 5 ---------------------------------------------------------------------------
-    rule = "C03.flag-count"
+    rule = prefix + ".flag-count"
     ctx.rule(rule, "win flag: false at construction, set for every member of the winner set; winner_len counts that flag over all players")
     isw = F.fn(PLAYER + "::is_winner")
     g = I.getter_field(isw)
